@@ -202,6 +202,9 @@ def _selected(variants, val):
     return {variants.get(val)}
 
 
+UNEXPLAINED = []
+
+
 def limit_verdicts(fx):
     """Which searches are told "no time limit"? Every path of should_stop that answers `false` (and of
     should_start_new_search that answers `true`) without consulting the clock, once the poll throttle / depth-1 /
@@ -210,6 +213,7 @@ def limit_verdicts(fx):
     marker (`hard_stop.is_zero()`) is only sound if no finite limit can compute to it.
     Returns (findings [(fn, key, msg)], instances, notes)."""
     findings, notes, n = [], [], 0
+    del UNEXPLAINED[:]
     try:
         tc = fx.adt("search::TimeControl")
     except Exception:
@@ -271,6 +275,7 @@ def limit_verdicts(fx):
                     findings.append((fn, f"{fn}/unconditional", f"`{fn}` answers `{bool(keep)}` for every kind of limit once the stop flag is clear: no time limit is ever enforced there"))
                 else:
                     notes.append(f"`{fn}`: a path answering `{bool(keep)}` is selected by `{show(rest[0][0])[:80]}`, which is neither the limit kind nor a recognised marker; not decided")
+                    UNEXPLAINED.append((fn, show(rest[0][0])[:80], bool(keep)))
                 continue
             for f, kind in sentinels:
                 res, why = sentinel_sound(fx, f, kind, variants, finite)
